@@ -228,6 +228,8 @@ def to_micheline(t, v, mode="readable") -> Any:
         return {"prim": "Pair", "args": [to_micheline(targs(t)[0], v[0], mode), to_micheline(targs(t)[1], v[1], mode)]}
     if p in ("list", "set"):
         return [to_micheline(targs(t)[0], x, mode) for x in v]
+    if p == "big_map" and isinstance(v, tuple) and v and v[0] == "ptr":
+        return {"int": str(v[1])}  # an on-chain big_map referred to by its identifier
     if p in ("map", "big_map"):
         return [{"prim": "Elt", "args": [to_micheline(targs(t)[0], k, mode), to_micheline(targs(t)[1], x, mode)]}
                 for k, x in v]
@@ -314,6 +316,8 @@ def from_micheline(t, e) -> Any:
             if not isinstance(e, list):
                 raise Malformed("seq %r" % e)
             return [from_micheline(targs(t)[0], x) for x in e]
+        if p == "big_map" and isinstance(e, dict) and "int" in e:
+            return ("ptr", int(e["int"]))
         if p in ("map", "big_map"):
             if not isinstance(e, list):
                 raise Malformed("map %r" % e)
